@@ -59,9 +59,12 @@ Init ==
   /\ WellFormed
   /\ stage = "run" /\ verdict = "-" /\ exit = 0 /\ out = <<>> /\ err = <<>>
 
-\* the documented freedom: a failing step and a failing cleanup instruction - either may be named
+\* A failing step and a failing cleanup instruction: either ERROR may be named.  But "an error is reported as an
+\* error, and not as a failed test" (manual, Error during execution): a failing ASSERTION never hides an error of
+\* the cleanup phase.
 ExeStatuses ==
-  (IF endK # 0 THEN {Status(endO)} ELSE {}) \cup (IF CleanupFails THEN {Status(cleanupO)} ELSE {})
+  (IF endK # 0 /\ ~(endO = "fail" /\ CleanupFails) THEN {Status(endO)} ELSE {})
+  \cup (IF CleanupFails THEN {Status(cleanupO)} ELSE {})
   \cup (IF endK = 0 /\ ~CleanupFails THEN {"PASS"} ELSE {})
 
 AcceptableVerdicts ==
@@ -147,6 +150,7 @@ ErrorVerdicts ==
      /\ (pre = "preproc") => verdict = "PRE_PROCESS_ERROR"
      /\ (Executes /\ endK # 0 /\ ~CleanupFails /\ endO # "fail") => verdict = Status(endO)
      /\ (verdict \in {"PASS", "XPASS", "SKIPPED"}) => (pre = "none" /\ endK \in {0} /\ ~CleanupFails)
+     /\ (verdict \in {"FAIL", "XFAIL"}) => ~CleanupFails           \* an error is never reported as a failed test
 \* exit code and identifier correspond (documented table); exactly one identifier line
 CodeMatchesIdentifier ==
   (Done /\ ~(mode = "act" /\ Complete)) =>
